@@ -18,12 +18,35 @@ def r_vtform(ctx):
                          "(orderings table), no index offset, modulus exponent = rendered width = vt_length - 1")
     f = ctx.p.func('dsw.spiderweb.set_vt')
     rets = list(f.stmts(ast.Return))
-    if len(rets) != 1:
-        raise AnalysisError("rule R-VTFORM: set_vt has %d returns" % len(rets))
-    nd = rets[0]
-    t = f.term(nd.stmt.value, nd)
     n = ('v', 'vt_length', 'P')
     strand = ('v', 'dna_sequence', 'P')
+    if not rets:
+        raise AnalysisError("rule R-VTFORM: set_vt has no return")
+    main = []
+    for r in rets:
+        t = f.term(r.stmt.value, r)
+        if t[0] == 'bin' and t[1] == '+' and call_name(t[3]) and call_name(t[3]).endswith('.number_to_dna'):
+            main.append(r)
+            continue
+        # a shortcut return: only the empty strand may bypass the formula, and only with ALPHA[0] * vt_length
+        lens = []
+        for atom, pol in ctx.conds(f, r):
+            for L in (0, 1, 2):
+                v = feval(atom, lambda x, L=L: L if x == ('call', ('g', 'builtins.len'), (strand,), ()) else
+                          (('x' * L) if x == strand else UNKNOWN))
+                lens.append((L, UNKNOWN if v is UNKNOWN else bool(v) == pol))
+        reach = {L for L in (0, 1, 2) if all(ok is True for l2, ok in lens if l2 == L) and any(l2 == L for l2, ok in lens)}
+        val_ok = t == ('bin', '*', ('c', 'A'), n) or t == ('bin', '*', n, ('c', 'A'))
+        run.check(val_ok and reach == {0}, 'R-VTFORM', f, 'shortcut-return', r.lineno,
+                  'shortcut only for the empty strand, returning A * vt_length',
+                  "set_vt returns %s without computing the check when the strand has length in %s: for a strand of length 1 "
+                  "the first symbol must still encode the nucleotide (sum mod 4), so substitutions on it would go unseen"
+                  % (show(t)[:60], sorted(reach) if reach else 'an unrecognised condition'),
+                  inputs='strands of length 1')
+    if len(main) != 1:
+        raise AnalysisError("rule R-VTFORM: set_vt has %d returns of the formula shape" % len(main))
+    nd = main[0]
+    t = f.term(nd.stmt.value, nd)
     if not (t[0] == 'bin' and t[1] == '+'):
         run.undecided('R-VTFORM', f, 'result-shape', nd.lineno, 'return term %s' % show(t)[:100])
         return
@@ -210,6 +233,32 @@ def r_filter(ctx):
               inputs='strings violating the missing rule')
     check_gc(ctx, f, found['gc'], judged, k)
     check_windows(ctx, f, judged, k)
+    # no rule may be skipped: the path conditions of a rejecting test are only configuration guards (cfg is not None),
+    # the negations of other rejecting tests, and the window / short-string split
+    reject_tests = {tn.id for nd, t, pol, tn in rejects}
+    n = 0
+    for nd, t, pol, tn in rejects:
+        for test, p, tid in nd.conds:
+            if tid in reject_tests:
+                continue
+            a = f.term(test, f.nodes[tid])
+            okc = False
+            for atom, pp in flatten_cond(a, p):
+                if atom[0] == 'cmp' and atom[1] == 'is' and atom[3] == NONE and atom[2][0] == 'attr' and not pp:
+                    okc = True       # self.<cfg> is not None
+                elif atom[0] == 'cmp' and atom[1] in ('<', '<=') and (is_call(atom[2], 'builtins.len') or is_call(atom[3], 'builtins.len')):
+                    okc = True       # window arm / short arm
+                else:
+                    okc = False
+                    break
+            n += 1
+            if not okc:
+                run.refute('R-FILTER', f, 'rule-never-skipped:line-test', nd.lineno,
+                           "the rejecting test at line %d is only reached when %s is %s: for the other inputs this rule of the "
+                           "documented predicate is skipped" % (nd.lineno, ast.unparse(test)[:60], p),
+                           inputs='inputs for which the skipping condition holds, e.g. motifs that read the same backwards')
+    if n:
+        run.ok('R-FILTER', f, 'rule-never-skipped', f.node.lineno, '%d guarding conditions are configuration / arm guards' % n)
 
 
 def check_revcomp(ctx, f, t, nd):
